@@ -16,12 +16,15 @@ def conds(tier):
                                budget=200 if q else 900))
     out.append(Cond("steps", core.mk_steps(P, 2, 3), core.steps_params(2, 3), pin=2, budget=120,
                     family="F-STEPS(2,3)", encodes=core.ENC_SCHED))
+    out.append(core.seq_cond("seq", P, 3, 2))
     out.append(Cond("dag", core.mk_dag(P), core.DAG_PARAMS, pin=3, budget=120, family="F-DAG",
                     encodes=core.ENC_SCHED))
     out.append(Cond("reentry", core.mk_reentry(P), core.REENTRY_PARAMS, pin=3, budget=150,
                     family="F-REENTRY", encodes=core.ENC_SCHED))
     out.append(core.fault_cond("caught", P, [4] if q else [4, 6], g0modes=3, g1modes=3, pin=4,
                                budget=200 if q else 900, slim=q))
+    out.append(core.cancel_cond("cancel", P))
+    out.append(core.dagsync_cond("dagsync", P))
     if not q:
         out.append(Cond("tree4", core.mk_tree(P, 4, 3, 3), core.tree_params(4, 3, 3), pin=4, budget=900,
                         family="F-TREE(4,3,3)", encodes=core.ENC_SCHED))
